@@ -135,8 +135,23 @@ def render(c):
     return "\n".join(out) + "\n"
 
 
+def _constants_guarded(seconds=60):
+    """a probe of the real code that never returns must not hold the build lock: give up after a minute"""
+    import signal
+
+    def boom(*a):
+        raise TimeoutError("constant extraction did not finish")
+    old = signal.signal(signal.SIGALRM, boom)
+    signal.alarm(seconds)
+    try:
+        return constants()
+    finally:
+        signal.alarm(0)
+        signal.signal(signal.SIGALRM, old)
+
+
 def regenerate(ctx=None):
-    txt = render(constants())
+    txt = render(_constants_guarded())
     d = core.LEAN / "Ebv" / "Generated"
     d.mkdir(parents=True, exist_ok=True)
     f = d / "Consts.lean"
@@ -376,9 +391,11 @@ def _parallel_literals():
             if name != f"{rec['et'][0]}.lock" or pe.ethertype != rec["et"][0]:
                 raise ValueError("unexpected get_ethertype")
 
+            draws = iter([1, 5] + list(range(6, 500)))   # distinct draws: a repeated one is rejected as taken
+
             def rr_fm(a, b):
                 rec["fm"] = (a, b)
-                return 5
+                return next(draws)
             lk.randrange = rr_fm
             f1 = lk.FMMULock(f"{d}/x.fmmu")
             size = os.path.getsize(f"{d}/x.fmmu")
